@@ -41,12 +41,16 @@ static void require_fired(const char *entry, const char *what)
     snprintf(key, sizeof(key), "faults.failure-without-fault.%s", entry);
     vrt_fail(key, "%s reported %s although no allocation failed inside the call", entry, what);
 }
+/* "completed normally although a request was refused inside the call" is NOT a violation: C16 admits both outcomes for every
+ * call, and an implementation may retry with a smaller request or fall back to another strategy.  It is recorded (the current
+ * library never does it), so that the evidence shows whether the normal outcome was ever reached that way. */
 static void require_not_fired(const char *entry, const char *what)
 {
     char key[128];
-    if (!FIRED()) return;
-    snprintf(key, sizeof(key), "faults.success-despite-fault.%s", entry);
-    vrt_fail(key, "%s %s although an allocation failed inside the call", entry, what);
+    (void)what;
+    if (!FIRED() || measuring) return;
+    snprintf(key, sizeof(key), "observed.completed-normally-although-a-request-was-refused.%s", entry);
+    vrt_count_dyn(key, 1);
 }
 static void count_fail(const char *entry)
 {
@@ -109,7 +113,9 @@ static void map_audit(void)
         }
     }
     VRT_CHECK(cstl_map_size(&M) == (size_t)n, "faults.map.size", "map size %zu, model %d", cstl_map_size(&M), n);
-    VRT_CHECK(vrt_lib_live() == (size_t)n, "faults.map.live-nodes", "%zu live library blocks for %d entries", vrt_lib_live(), n);
+    /* one block per entry is the current implementation's pattern, not something C16 states: recorded, not demanded (the
+     * script's final release still demands that nothing stays allocated) */
+    if (!measuring && vrt_lib_live() != (size_t)n) VRT_COUNT("observed.map.live-blocks-differ-from-entries");
 }
 static void map_ins(int k)
 {
